@@ -1,6 +1,7 @@
 package main
 
 // verif:needs c18
+// verif:tags verif_solve
 
 // C19: a reported immediate road threat for the side to move is a real winning move.
 // CASE <enc position> | <wp wt bp bt of ai.CountThreats>
@@ -423,6 +424,8 @@ func runC19(c *ctx) {
 			}
 		})
 	}
+	// the detector as the depth-first solver holds it: one solver instance, runs of related positions (c19_solve.go)
+	c19SolverFamily(c)
 }
 
 func replayC19(c *ctx) {
@@ -434,6 +437,9 @@ func replayC19(c *ctx) {
 	if err != nil {
 		fmt.Fprintln(os.Stderr, err)
 		os.Exit(2)
+	}
+	if c19SolverReplay(c, inp) {
+		return
 	}
 	p, err := evDecode(inp)
 	if err != nil {
